@@ -556,3 +556,18 @@ func Run(t *testing.T, cfg Config, body func(*X)) {
 	}
 	t.Logf("%s shard=%s executions=%d transitions=%d states=%d nontrivial=%d outcomes=%d exhaustive=%v %s", cfg.Name, shard, e.owned, e.transitions, len(e.states), e.nontrivial, len(e.outcomes), e.exhaustive, e.stopReason)
 }
+
+// Try runs f and returns the value of a panic raised by it (nil if none).
+// The engine's own abort signal (raised by Fail/Broken) is passed through.
+func Try(f func()) (p interface{}) {
+	defer func() {
+		if r := recover(); r != nil {
+			if _, ok := r.(abortSignal); ok {
+				panic(r)
+			}
+			p = r
+		}
+	}()
+	f()
+	return nil
+}
